@@ -214,6 +214,8 @@ def correspond(ctx, corr, model_ok):
     corr.count('reconnecting client with local producers in flight: wire of the new connection', 18)
     corr.oracle_failures.extend(failing_source_oracle())
     corr.count('responder whose library source fails mid-stream, with and without a delay between messages', 36)
+    corr.oracle_failures.extend(routed_fnf_oracle())
+    corr.count('fire-and-forget through the routing handler (no route / unknown route / unparsable metadata / raising handler)', 12)
     from harness.props import c20
     corr.oracle_failures.extend(c20.take_oracle())
     corr.count('Rx stream requester behind take(k): frames written after the terminal frame was received', 66)
@@ -264,6 +266,8 @@ def replay(obj):
         return bool(reconnect_wire_oracle())
     if 'failing_source_case' in case:
         return bool(failing_source_oracle())
+    if 'routed_fnf_case' in case:
+        return bool(routed_fnf_oracle())
     if 'rx_case' in case:
         from harness.props import c20
         return bool(c20.oracle(c20.run_case(case['rx_case'])))
@@ -620,4 +624,74 @@ def failing_source_oracle():
                         out.append({'what': 'responder with a failing %s source (%s, %d ms between messages, fails after %d): %s' %
                                             (source, 'channel' if channel else 'stream', delay_ms, fail_after, bad),
                                     'failing_source_case': [source, channel, delay_ms, fail_after]})
+    return out
+
+
+# ---------------------------------------------------------------------------------------------
+# the responder of a fire-and-forget is allowed no frame at all, through the routing handler too: whatever is wrong with the
+# request (no route, unknown route, unparsable metadata, a handler that raises), nothing is written on its stream
+
+def run_routed_fnf(metadata_kind, lenreq):
+    from harness import sim, frames as FR
+    from rsocket.rsocket_server import RSocketServer
+    from rsocket.routing.request_router import RequestRouter
+    from rsocket.routing.routing_request_handler import RoutingRequestHandler
+    from rsocket.extensions.helpers import composite, route, data_mime_type
+    loop = sim.new_loop()
+    sim.patch_clock(loop)
+    T = sim.make_transport_class()
+    t = T(lenreq=lenreq)
+    router = RequestRouter()
+    seen = []
+
+    @router.fire_and_forget('known')
+    async def known(payload):
+        seen.append('known')
+
+    @router.fire_and_forget('raises')
+    async def raises(payload):
+        seen.append('raises')
+        raise RuntimeError('handler failed')
+
+    @router.response('ping')
+    async def ping(payload):
+        from rsocket.helpers import create_future
+        from rsocket.payload import Payload
+        return create_future(Payload(b'pong'))
+    md = {'known': lambda: composite(route('known')), 'unknown': lambda: composite(route('nowhere')),
+          'raises': lambda: composite(route('raises')), 'no-route': lambda: composite(data_mime_type(b'text/plain')),
+          'empty': lambda: b'', 'garbage': lambda: b'\xff\x00\x00\x7f\x01'}[metadata_kind]()
+    box = {}
+    try:
+        loop.run(lambda: box.setdefault('s', RSocketServer(t, handler_factory=lambda: RoutingRequestHandler(router))))
+        loop.settle()
+        t.inject_frame(FR.build({'t': 'RequestFnf', 'sid': 5, 'ign': False, 'follows': False, 'md': bytes(md), 'd': b'x'}).serialize())
+        loop.settle()
+        # the connection still serves: a routed request-response behind it
+        t.inject_frame(FR.build({'t': 'RequestResponse', 'sid': 7, 'ign': False, 'follows': False,
+                                 'md': bytes(composite(route('ping'))), 'd': b''}).serialize())
+        loop.settle()
+        loop.run_until(loop.time() + 0.5)
+        loop.settle()
+        return [sim.parse_sent(b) for b in t.sent], seen
+    finally:
+        loop.finish()
+
+
+def routed_fnf_oracle():
+    out = []
+    for kind in ('known', 'unknown', 'raises', 'no-route', 'empty', 'garbage'):
+        for lenreq in (False, True):
+            wire, seen = run_routed_fnf(kind, lenreq)
+            on5 = [f for f in wire if f.get('sid') == 5]
+            on7 = [f for f in wire if f.get('sid') == 7]
+            bad = None
+            if on5:
+                bad = 'the responder wrote %s on the stream of a fire-and-forget' % [f['t'] for f in on5]
+            elif kind in ('known', 'raises') and seen != [kind]:
+                bad = 'the handler registered for the route did not run exactly once: %s' % seen
+            elif [(f['t'], bytes(f.get('d') or b'')) for f in on7] != [('Payload', b'pong')]:
+                bad = 'the request-response behind it was answered with %s' % [(f['t'], bytes(f.get('d') or b'')) for f in on7]
+            if bad:
+                out.append({'what': 'routed fire-and-forget (%s metadata): %s' % (kind, bad), 'routed_fnf_case': [kind, lenreq]})
     return out
